@@ -13,14 +13,14 @@ ID = "C03"
 ENGINE = "E-CHR + E-TOK(xsh) + char-E-EDIT + E-LINE, outcome-class monitor with parent-side watchdog"
 RULE = (
     "every string over the 18-character 'nasty' alphabet up to the length bound (bare and inside f-string, "
-    "subprocess, call-macro and with-macro carriers), every xonsh/python lexeme sequence of the E-TOK trees, every "
-    "character-level prefix/deletion/insertion of the corpus; each is tokenized to exhaustion and parsed in exec "
+    "subprocess, call-macro and with-macro carriers), every xonsh/python lexeme sequence of the E-TOK trees, every filling of nine xonsh carriers (help chains, env targets, subprocess words, macro arguments, with-macro headers), every "
+    "character-level prefix/deletion/insertion of the corpus, the E-LINE breadth-first search over tokenizer line states, and size families (a run of 30 / 60 / 200 copies of each of 24 fillers inside each of 22 lexical contexts); each is tokenized to exhaustion and parsed in exec "
     "and eval mode (short ones also through parse_file). Non-trivial = the text is non-empty and reached the parser "
     "(distinct texts, hashed)."
 )
 BOUND = {
-    "quick": "nasty^<=4 bare, ^<=3 in 12 carriers (closed and left open); E-TOK xsh, lit, expr n<=3; corpus char edits; parse_file for nasty^<=2",
-    "thorough": "nasty^<=5 bare, ^<=4 in 12 carriers (closed and left open); E-TOK xsh, lit n<=4, all python vocabularies n<=4; corpus char edits",
+    "quick": "nasty^<=4 bare, ^<=3 in 12 carriers (closed and left open); E-TOK xsh, lit, expr n<=3; corpus char edits; parse_file for nasty^<=2; E-LINE depth 3",
+    "thorough": "nasty^<=5 bare, ^<=4 in 12 carriers (closed and left open); E-TOK xsh, lit n<=4, all python vocabularies n<=4; corpus char edits; E-LINE depth 5",
 }
 ASSUMPTIONS = [
     "per-case deadline 6 s enforced by the parent process, re-run alone with 30 s before a hang is reported",
@@ -44,9 +44,22 @@ def units(tier: str) -> list[tuple]:
     else:
         for v in ("expr", "stmt", "defs", "match"):
             us += tokspace.units(v, 4 if v != "stmt" else 3)
+    from ..explore import subspace
+
+    us += subspace.xunits(tier)
     us += edits.char_units(tier)
     us += [("file", "nasty", 2 if tier == "quick" else 3)]
+    us += [("eline", 3 if tier == "quick" else 5)]
+    us += [("long", i) for i in range(len(LONG_CONTEXTS))]
     return us
+
+
+# size families for the tokenizer: a long homogeneous run inside every lexical context (catastrophic regex backtracking
+# and quadratic loops need length, not variety)
+LONG_CONTEXTS = ["{}", "'{}", '"{}', "'''{}", "f'{}", "f'{{{}", "f'{{a:{}", "#{}", "$({}", "`{}", "r'{}", "b\"{}", "({}", "f!({}", "with! a:\n {}",
+                 "'{}'", "f'{}'", "x = {}\n", "'{}\n", "\"{}\\\n", "p'{}", "$[{}]"]
+LONG_FILLERS = ["a", "ab ", "1", "1.", "\\", "'", '"', " ", "\t", "é", "{", "}", "{{", "(", ")", "a.", "\\n", "\n", "$", "!", "?", "-x ", "0_", "\\N{"]
+LONG_SIZES = [30, 60, 200]
 
 
 def cases(unit: tuple):
@@ -57,6 +70,10 @@ def cases(unit: tuple):
     elif kind == "tok":
         for s, _ in tokspace.expand(unit):
             yield s
+    elif kind == "xsub":
+        from ..explore import subspace
+
+        yield from subspace.expand(unit)
     elif kind == "cedit":
         from ..explore import edits
 
@@ -65,6 +82,18 @@ def cases(unit: tuple):
         u = ("chr", unit[1], "bare", "", unit[2])
         for s in charspace.expand(u):
             yield {"file": s}
+    elif kind == "long":
+        ctx = LONG_CONTEXTS[unit[1]]
+        for f in LONG_FILLERS:
+            for n in LONG_SIZES:
+                yield ctx.replace("{}", f * (n // len(f)), 1) if "{}" in ctx else ctx
+    elif kind == "eline":
+        from ..explore import linebfs
+
+        info: dict = {}
+        for h, _toks, _err in linebfs.iter_bfs(linebfs.ALPHABET_CORE, unit[1], info):
+            yield {"lines": h}
+        _ELINE_INFO.update(info)
 
 
 def run_unit(unit: tuple, acc: Any) -> None:
@@ -78,6 +107,8 @@ _TMP: str | None = None
 def check_case(case: Any, acc: Any) -> None:
     if isinstance(case, dict) and "file" in case:
         return check_file(case, acc)
+    if isinstance(case, dict) and "lines" in case:
+        return check_eline(case, acc)
     src = case
     if src.strip():
         acc.nontrivial(src)
@@ -114,3 +145,31 @@ def check_file(case: dict, acc: Any) -> None:
     acc.count("file:tree")
     if not isinstance(tree, ast.Module):
         acc.violation(f"PARSEFILE-RESULT {type(tree).__name__}", case, None, text=case["file"])
+
+
+_ELINE_INFO: dict = {}
+
+
+def check_eline(case: dict, acc: Any) -> None:
+    """One transition of the E-LINE search (tokenizer line states): the line history must end in tokens or an allowed
+    exception, and short histories are also parsed."""
+    from peg_parser.tokenize import TokenError
+
+    from ..explore import linebfs
+
+    hist = case["lines"]
+    src = "".join(hist)
+    _s, _toks, err = linebfs.feed(hist)
+    acc.ran()
+    if err is not None and not isinstance(err, (TokenError, SyntaxError)):
+        acc.violation(f"TOKENIZE-EXC {type(err).__name__}@{totality.where(err)} [E-LINE]", {"src": src, "lines": hist}, run.exc_brief(err), text=src)
+    if len(hist) <= 3:
+        totality.check_text(src, acc, {"src": src, "lines": hist}, tokens=False)
+    if _ELINE_INFO:
+        acc.notes["eline"] = dict(_ELINE_INFO)
+
+
+def finalize(acc: Any, tier: str) -> dict:
+    e = acc.notes.get("eline") or {}
+    return {"eline": e, "exhaustive": not e.get("capped", False), "states": acc.cases + e.get("states", 0),
+            "transitions": acc.cases + e.get("transitions", 0)}
